@@ -159,13 +159,35 @@ def c02_t1(ctx, f):
             exp = ref.layout(v, l)
             key = "%s/%s/V%02d" % (fn.path, l, v)
             ok = False
-            if got and len(got) == 2 and all(isinstance(g, list) and len(g) == 2 for g in got):
+            if got and isinstance(got, list) and len(got) == 2 and all(isinstance(g, list) and len(g) == 2 for g in got):
                 flat = (got[0][0], got[0][1], got[1][0], got[1][1])
                 out[(v, l)] = flat
                 # the size of an empty second group is never used (no block is cut with it)
                 ok = flat[:3] == exp[:3] and (exp[2] == 0 or flat[3] == exp[3])
                 # an equivalent layout with the groups' roles expressed differently is not accepted:
                 # the interleaver places group 1 first, so order matters.
+            elif r.kind == "ret" and got is not None:
+                # another container (a struct with named fields, a flat tuple): which field means what is not this rule's to guess.
+                # Read in declaration order it either is the ISO layout, or the rule has no verdict (the interleaving rule C02.R4
+                # uses the layout for what it means, on all 160 cells)
+                def _ints(x):
+                    if isinstance(x, bool):
+                        return []
+                    if isinstance(x, int):
+                        return [x]
+                    if isinstance(x, dict):
+                        return [y for k in (x.get("fields") or []) for y in _ints(k)]
+                    if isinstance(x, (list, tuple)):
+                        return [y for k in x for y in _ints(k)]
+                    return []
+                flat = tuple(_ints(got))
+                if len(flat) == 4 and flat[:3] == exp[:3] and (exp[2] == 0 or flat[3] == exp[3]):
+                    out[(v, l)] = flat
+                    ok = True
+                else:
+                    if (v, l) == (1, ref.LEVELS[0]):
+                        ctx.abstain(rid, "%s returns %s, not [(count, size); 2]: field meanings are not read here" % (fn.path, fn.raw.get("output")), where_fn(fn))
+                    continue
             ctx.check(rid, ok, key, where_fn(fn), fn.path, "%s/V%02d" % (l, v),
                       "block layout differs from ISO Table 9", expected=list(exp), found=describe(r),
                       sample="%s/V%02d: found %s expected %s" % (l, v, got, list(exp)))
@@ -437,9 +459,12 @@ def c04_t2(ctx, f):
     for v in range(7, 41):  # words below V07 are never read (C03.T3)
         r = run(F, fn, {VERSION: V(v)})
         exp = ref.version_word(v)
-        ctx.check(rid, retval(r) == exp, "%s/V%02d" % (fn.path, v), where_fn(fn), fn.path, "V%02d" % v,
+        got = retval(r)
+        if isinstance(got, dict) and got.get("variant") == "Some" and got.get("fields"):
+            got = got["fields"][0]  # an accessor that answers None below V07
+        ctx.check(rid, got == exp, "%s/V%02d" % (fn.path, v), where_fn(fn), fn.path, "V%02d" % v,
                   "version information word is not the BCH(18,6) codeword", expected=bin(exp),
-                  found=bin(retval(r)) if isinstance(retval(r), int) else describe(r), sample="V%02d: %s" % (v, bin(exp)))
+                  found=bin(got) if isinstance(got, int) else describe(r), sample="V%02d: %s" % (v, bin(exp)))
 
 
 # ---------------------------------------------------------------------------
